@@ -185,7 +185,11 @@ func run(e *core.Env) {
 	}
 	// The generated store must be something the real parser accepts.
 	if _, err := rStore.Parse(); err != nil && !strings.Contains(err.Error(), "no way to connect") {
-		e.Infra("generated config refused by parser: %v", err)
+		// The statement speaks about configurations the parser accepts. (On the shipped tree the
+		// generator's configurations are always accepted; the probe shows if that ever changes.)
+		e.Logf("generated config refused by parser: %v", err)
+		e.Probe("generated_config_refused_by_parser")
+		return
 	}
 	var urls []string
 	for _, s := range svcs {
@@ -268,6 +272,21 @@ func run(e *core.Env) {
 		proto := []uint8{6, 17, 58, 6, 17, 1, 47, 0, 255, uint8(tp.Intn(256))}[tp.Intn(10)]
 		var dport uint16
 		switch {
+		case len(ports) > 0 && tp.Chance(1, 5):
+			// ports that differ from a service port only in the high byte (by a protocol number,
+			// a multiple of 256, one bit): what a packed or truncated lookup key would confuse
+			sp := ports[tp.Intn(len(ports))]
+			switch tp.Intn(4) {
+			case 0:
+				dport = sp ^ uint16([]int{1, 6, 17, 6 ^ 17, 58, 58 ^ 6}[tp.Intn(6)])<<8
+			case 1:
+				dport = sp + uint16(256*(1+tp.Intn(8)))
+			case 2:
+				dport = sp - uint16(256*(1+tp.Intn(8)))
+			default:
+				dport = sp ^ 1<<uint(tp.Intn(16))
+			}
+			e.Probe("inbound_port_aliasing_a_service_port")
 		case len(ports) > 0 && tp.Chance(2, 3):
 			dport = uint16(int(ports[tp.Intn(len(ports))]) + tp.Intn(3) - 1)
 		default:
